@@ -61,15 +61,23 @@ def to_open_api_3_0(schema: JsonSchema) -> Dict[str, Any]:
             result.setdefault("nullable", True)
         result["type"] = [t for t in result["type"] if t != "null"]
         if len(result["type"]) > 1:
-            result.setdefault("anyOf", []).extend(
-                {"type": t} for t in result.pop("type")
-            )
+            types_any_of = [{"type": t} for t in result.pop("type")]
+            if "anyOf" in result:
+                # both constraints must hold: don't extend the existing alternatives
+                result.setdefault("allOf", []).append({"anyOf": types_any_of})
+            else:
+                result["anyOf"] = types_any_of
         else:
             result["type"] = result["type"][0]
     if "examples" in result:
         result.setdefault("example", result.pop("examples")[0])
     if "const" in result:
-        result.setdefault("enum", [result.pop("const")])
+        const = result.pop("const")
+        if "enum" in result:
+            # both constraints must hold: don't drop the constant
+            result.setdefault("allOf", []).append({"enum": [const]})
+        else:
+            result["enum"] = [const]
     return result
 
 
